@@ -153,6 +153,12 @@ def classify(unit, g, res):
                 if o.get("kind") == "src":
                     site = " ".join(" ".join(t["text"] for t in s.get("text", [])).split())[:200]
                     src_loc = f"{o.get('file')}:{o.get('line')}"
+                    # a long generated line (log-sink rules put all sink calls of one event on one line): name the highlighted call too
+                    tx = s.get("text", [])
+                    if len(tx) == 1 and len(tx[0]["text"]) > 200 and tx[0].get("highlight_end", 0) - tx[0].get("highlight_start", 0) < 160:
+                        site += " [at: " + tx[0]["text"][tx[0]["highlight_start"] - 1:tx[0]["highlight_end"] - 1] + "]"
+                    if o.get("kind") == "src" and "log_arg" in site:
+                        site += f" [{src_loc}]"
         if not label and "decreases not satisfied" in low and prim is not None:
             # termination of a loop: Verus points at the loop header, not at the clause. If the unit gave the loop's `decreases`
             # a label (termination is part of the property there), the failure carries it (clauses follow the header line).
